@@ -74,4 +74,11 @@ META = {
         'note': PROOF_NOTE + 'hash injectivity assumed; printing order is not modelled (the canonical form reads the internal key order).',
         'technique': 'Lean 4 proof (fold invariants relating the hash-map/slice structure to a first-wins ordered dictionary) + random literal/accessor correspondence',
     },
+    'C12': {
+        'text': 'Theorems for every value and arbitrary operand semantics: isTruthy, the && / || short-cut test and ! all reduce to "B yields true"; exactly one branch of an if runs (the result does not depend on the other); '
+                'a deciding left operand is returned itself and the right operand does not run, otherwise the right operand runs once in the left operand\'s final state; guards jump exactly on truthy. '
+                'Tied to the implementation by the exhaustive value-pool x construct sweep with printing operands.',
+        'note': PROOF_NOTE + 'the per-type B built-ins live in the driver, not in the theorems.',
+        'technique': 'Lean 4 proof (case analysis; parametricity in the unevaluated operand) + exhaustive value-pool x construct correspondence',
+    },
 }
